@@ -21,6 +21,7 @@ def _case(draw, worlds, all_boundaries):
     T = draw(st.integers(1, 8 if W == 1 else 5))
     case = {'W': W, 'method': method, 'prediv': prediv, 'spec': draw(gens.model_spec(max_layers=3, max_dim=5, max_out=4)),
             'in_hook': draw(st.booleans()), 'accum': draw(st.sampled_from([1, 1, 2])), 'N': draw(st.integers(1, 3)),
+            'zero_to_none': draw(st.booleans()),
             'style': draw(gens.style_strategy()),
             'hp': {'factor_update_steps': draw(gens.table_or_const([1, 1, 2, 3])), 'inv_update_steps': draw(gens.table_or_const([1, 2, 3, 4])),
                    'damping': draw(gens.table_or_const([0.01, 0.1, 1.0])), 'factor_decay': draw(gens.table_or_const([0.95, 0.5, 0.8])),
@@ -45,7 +46,7 @@ class C09(Prop):
             'rank, no exception, no protocol violation; (b) continuation bit-identical to the uninterrupted twin when step c is a refresh step or '
             'the live second-order data had been computed from the saved factors at the same (baked) damping, otherwise bit-identical to the run '
             'that recomputes second-order data from its own factors at boundary c (same-object reload); (c) a state with a layer removed or '
-            'added raises ValueError; (d) a state dict kept alive in memory (not pickled) is unchanged after further training steps. Non-trivial: 0 < c < T with a non-refresh step in the continuation; multi-rank share W >= 2.')
+            'added raises ValueError; (d) a state dict kept alive in memory (not pickled) is unchanged after further training steps; (e) loading the checkpoint of boundary c back into the SAME live preconditioner after training to T (weights put back) continues bit-identically to resuming in a fresh preconditioner. Non-trivial: 0 < c < T with a non-refresh step in the continuation; multi-rank share W >= 2.')
     assumptions = ['compute_inverses=False only when step c is a refresh step; include_factors=False only when step c is both a factor-update and a refresh step (documented)',
                    'the numerical correctness of second-order data recomputed from restored factors is decided against refkfac in C05 (ckpt operation); here relations are bit-exact',
                    'vkit/simdist for the multi-rank share']
@@ -151,6 +152,22 @@ class C09(Prop):
                             d = (g - g2).abs().max().item() / max(g.abs().max().item(), 1e-300) if g is not None and g2 is not None else float('nan')
                             return violation(f'{where}: rank {rank} step {t}: gradient of {n} after resuming differs from {what} (relative max diff {d:.3e})',
                                              'resume-diverges', labels=labels)
+            # (e) rolling back IN PLACE (same preconditioner object, weights put back) must behave like resuming in a fresh one
+            if 1 <= c < T and inc:       # c = 0: a state without factors does not overwrite the factors of a live object (outside the statement)
+                rb, err = run([train(t) for t in range(c)] + [{'op': 'snapshot'}] + [train(t) for t in range(c, T)]
+                              + [{'op': 'rollback', 'compute_inverses': ci}] + [train(t) for t in range(c, T)])
+                if err:
+                    return violation(f'{where}: rollback into the live preconditioner failed: {err}', 'rollback-failed', labels=labels)
+                for rank in range(len(res)):
+                    second = [r for r in rb[rank] if r['op'] == 'train'][T:]
+                    fresh = [r for r in res[rank] if r['op'] == 'train'][c:]
+                    for j, (a, b) in enumerate(zip(second, fresh)):
+                        for n, g in b['after'].items():
+                            g2 = a['after'][n]
+                            if (g is None) != (g2 is None) or (g is not None and not torch.equal(g, g2)):
+                                d = (g - g2).abs().max().item() / max(g.abs().max().item(), 1e-300) if g is not None and g2 is not None else float('nan')
+                                return violation(f'{where}: rank {rank} step {c + j}: after rolling back to this boundary in place (same preconditioner object) the gradient of {n} '
+                                                 f'differs from resuming in a fresh preconditioner (relative max diff {d:.3e})', 'rollback-diverges', labels=labels)
             if 0 < c < T and any(s % _at(hp['inv_update_steps'], s) != 0 for s in range(c, T)):
                 nontrivial = True
         # (c) layer-count mismatch must be rejected (world of one only: no collectives involved)
